@@ -242,6 +242,88 @@ theorem sni_default (C : SplitContract split) :
     unfold serverName tryRemovePort
     rw [trim_bracketed_port v p hp hpne, C.bracketed v p hv hp]
 
+/-! ## Several bootstrapped upstreams in one process
+
+Every upstream resolves its own host name and dials the answer on its own
+port, whatever other upstreams (same name, other ports, other schemes) were
+created before or after it in the same process. -/
+
+/-- facts the bootstrap part of the model is read from -/
+def bootPerCall : Bool := Gen.Facts.c18BootNewPerCall == some true
+def bootOwnPort : Bool := Gen.Facts.c18BootAddrOwnPort == some true
+
+theorem boot_guard : Gen.Facts.c18BootNewPerCall = some true ∧ Gen.Facts.c18BootAddrOwnPort = some true ∧
+    Gen.Facts.c18BootCallsPassTarget = some true := ⟨rfl, rfl, rfl⟩
+
+theorem createAll_perCall (other : List Boot → Bytes → UInt16 → Boot) (reg : List Boot)
+    (cfgs : List (Bytes × UInt16)) :
+    createAll true other reg cfgs = cfgs.map (fun c => { fqdn := fqdn c.1, port := c.2 }) := by
+  induction cfgs generalizing reg with
+  | nil => rfl
+  | cons c rest ih =>
+    obtain ⟨h, p⟩ := c
+    simp [createAll, bootNew, ih]
+
+/-- **Independence.** With per-call Bootstraps, upstream number `i` of a
+process asks for its own name and uses its own port - for every history of
+other upstreams, every earlier registry and whatever the unknown parts are. -/
+theorem boot_independent (other : List Boot → Bytes → UInt16 → Boot) (otherPort : Boot → UInt16)
+    (reg : List Boot) (cfgs : List (Bytes × UInt16)) (i : Nat) (c : Bytes × UInt16)
+    (hc : cfgs[i]? = some c) :
+    ((createAll true other reg cfgs)[i]?).map (bootDial true otherPort) = some (fqdn c.1, c.2) := by
+  rw [createAll_perCall]
+  simp [List.getElem?_map, hc, bootDial]
+
+/-- **Bootstrapped `host:port`.** An upstream written `h:p` (host name `h`,
+`p` parsing to a non-zero `n`), created in one process after any upstreams
+`before` and followed by any upstreams `after`, asks the bootstrap server for
+`h.` and dials the answer on port `n`: never the port of another upstream. The
+model's `bootNew`/`bootDial` are instantiated with the regenerated facts. -/
+theorem bootstrapped_host_port (C : SplitContract split) (h p : Bytes) (hh : NoSpecial h) (hp : NoSpecial p)
+    (n d : UInt16) (hn : parse p = some n) (hz : n ≠ 0)
+    (other : List Boot → Bytes → UInt16 → Boot) (otherPort : Boot → UInt16) (reg : List Boot)
+    (before after : List (Bytes × UInt16)) :
+    ∃ t, target split parse (h ++ colon :: p) [] d = .ok t ∧
+      ((createAll bootPerCall other reg (before ++ t :: after))[before.length]?).map (bootDial bootOwnPort otherPort)
+        = some (fqdn h, n) := by
+  refine ⟨(h, n), ((plain_with_port parse C h p hh hp d).1 n hn hz), ?_⟩
+  have e1 : bootPerCall = true := rfl
+  have e2 : bootOwnPort = true := rfl
+  rw [e1, e2]
+  exact boot_independent other otherPort reg _ _ (h, n) (by simp)
+
+/-- **Bootstrapped host without port / with `dial_addr` `h:p`**: same statement
+for the scheme default port and for a dial_addr override. -/
+theorem bootstrapped_default_and_dial_addr (C : SplitContract split) (h : Bytes) (hh : NoSpecial h) (d : UInt16)
+    (other : List Boot → Bytes → UInt16 → Boot) (otherPort : Boot → UInt16) (reg : List Boot)
+    (before after : List (Bytes × UInt16)) :
+    (∃ t, target split parse h [] d = .ok t ∧
+      ((createAll bootPerCall other reg (before ++ t :: after))[before.length]?).map (bootDial bootOwnPort otherPort)
+        = some (fqdn h, d)) ∧
+    (∀ u p n, NoSpecial p → parse p = some n → n ≠ 0 →
+      ∃ t, target split parse u (h ++ colon :: p) d = .ok t ∧
+      ((createAll bootPerCall other reg (before ++ t :: after))[before.length]?).map (bootDial bootOwnPort otherPort)
+        = some (fqdn h, n)) := by
+  have e1 : bootPerCall = true := rfl
+  have e2 : bootOwnPort = true := rfl
+  rw [e1, e2]
+  refine ⟨⟨(h, d), plain_no_port parse C h hh d, ?_⟩, ?_⟩
+  · exact boot_independent other otherPort reg _ _ (h, d) (by simp)
+  · intro u p n hp hn hz
+    exact ⟨(h, n), (dial_addr_forms parse C u d).2.2.1 h p n hh hp hn hz,
+      boot_independent other otherPort reg _ _ (h, n) (by simp)⟩
+
+/-- Non-vacuity of the hypothesis: when `bootstrap.New` may hand out a
+Bootstrap made earlier for the same name, the statement is false - the second
+of two upstreams on one name gets the first one's port. -/
+example :
+    let shared : List Boot → Bytes → UInt16 → Boot := fun reg h p =>
+      match reg.find? (fun b => b.fqdn == fqdn h) with
+      | some b => b
+      | none => { fqdn := fqdn h, port := p }
+    (createAll false shared [] [([100, 110, 115], 853), ([100, 110, 115], 443)]).map (bootDial true (fun _ => 0))
+      = [([100, 110, 115, 46], 853), ([100, 110, 115, 46], 853)] := by decide
+
 /-! Non-vacuity: the executable model of SplitHostPort on one instance of every
 contract clause, and the targets of concrete addresses. "2001:db8::1" etc. -/
 -- byte strings below are the UTF-8 codes of the quoted text
